@@ -20,7 +20,10 @@ pub fn run(rest: &str) -> String {
     let mut it = rest.split(' ');
     let text = crate::util::unhex_str(it.next().unwrap_or(""));
     let maxcol: u32 = it.next().unwrap_or("0").parse().unwrap_or(0);
-    let all_offsets = it.next() == Some("all");
+    let mode = it.next();
+    let all_offsets = mode == Some("all");
+    // "big": also columns and lines at the ends of the u32 range (clients send `u32::MAX` for "end of line")
+    let big = mode == Some("big");
     let li = match std::panic::catch_unwind(|| LineIndex::new(&text)) {
         Ok(li) => li,
         Err(_) => return "PANIC LineIndex::new".to_string(),
@@ -47,6 +50,20 @@ pub fn run(rest: &str) -> String {
             match r {
                 Ok(o) => bw.push(format!("{},{}={}", l, c, u32::from(o))),
                 Err(_) => bw.push(format!("{},{}=P", l, c)),
+            }
+        }
+    }
+    if big {
+        const BIGC: [u32; 8] = [2147483647, 2147483648, 4294967290, 4294967291, 4294967292, 4294967293, 4294967294, 4294967295];
+        let mut lines: Vec<u32> = (0..=(nl as u32 + 1)).collect();
+        lines.push(4294967295);
+        for l in lines {
+            for c in BIGC {
+                let r = std::panic::catch_unwind(|| lsp::from_proto::position(&li, Position::new(l, c)));
+                match r {
+                    Ok(o) => bw.push(format!("{},{}={}", l, c, u32::from(o))),
+                    Err(_) => bw.push(format!("{},{}=P", l, c)),
+                }
             }
         }
     }
